@@ -6,7 +6,12 @@ PATCH="$(realpath "$1")"; shift
 WT=$(mktemp -d /tmp/wt-try-XXXXXX); rmdir "$WT"
 git -C /repo worktree add -q --detach "$WT" HEAD || exit 3
 EV=$(mktemp -d /tmp/ev-try-XXXXXX)
-if ! git -C "$WT" apply "$PATCH"; then echo "PATCH DOES NOT APPLY"; git -C /repo worktree remove --force "$WT"; rm -rf "$EV"; exit 3; fi
+# /repo may have moved on (fix: commits) since the change was recorded: try the rebased copy kept next to it, then a 3-way apply
+REB="$(dirname "$PATCH")/patch.rebased.diff"
+if [ "$(basename "$PATCH")" = patch.diff ] && [ -f "$REB" ] && git -C "$WT" apply "$REB" 2>/dev/null; then :
+elif git -C "$WT" apply "$PATCH" 2>/dev/null; then :
+elif git -C "$WT" apply --3way "$PATCH" 2>/dev/null; then :
+else echo "PATCH DOES NOT APPLY"; git -C /repo worktree remove --force "$WT"; rm -rf "$EV"; exit 3; fi
 rc=0
 for id in "$@"; do
   VF_REPO_ROOT="$WT" VF_EVIDENCE_DIR="$EV" VERIF_TIER="${TIER:-quick}" "$(dirname "$0")/../bin/check" "$id" --tier "${TIER:-quick}" 2>&1 | grep -E "witness|^VIOLATION|^KNOWN|^INCONC|held on" | cut -c1-${CUT:-400}
